@@ -98,6 +98,7 @@ func c09lRun(sc c09lScenario) (vs []ev.V) {
 				fmt.Sscanf(k, "status:%d", &idx)
 				hop.Script("status:"+c09lRcpts[idx], v)
 				hop.Script("status:"+c09lASCII(c09lRcpts[idx]), v)
+			case k == "bodyopen" || k == "bodyread":
 			default:
 				hop.Script(k, v)
 			}
@@ -119,8 +120,23 @@ func c09lRun(sc c09lScenario) (vs []ev.V) {
 			continue
 		}
 		col := &c09lCollector{errs: map[string]bool{}}
-		pd.BodyNonAtomic(ctx, col, hdr, buffer.MemoryBuffer{Slice: []byte("body\r\n")})
+		body := verifx.FaultyBuffer{Data: []byte("body\r\n"), ReadErrAfter: -1}
+		if tx.Faults["bodyopen"] != "" {
+			body.OpenErr = verifx.ErrBodyOpen
+		}
+		if v, ok := tx.Faults["bodyread"]; ok {
+			fmt.Sscan(v, &body.ReadErrAfter)
+		}
+		pd.BodyNonAtomic(ctx, col, hdr, buffer.Buffer(body))
 		d.Commit(ctx)
+		if tx.Faults["bodyopen"] != "" || tx.Faults["bodyread"] != "" {
+			for _, k := range col.keys {
+				if !col.errs[k] {
+					vs = append(vs, ev.Vf("status:success-although-body-unreadable:lmtp", "transaction %d: the message body could not be read (%v) but success was reported for %q (all results: %q)", ti, tx.Faults, k, col.keys))
+					break
+				}
+			}
+		}
 		got := append([]string(nil), col.keys...)
 		want := append([]string(nil), accepted...)
 		sort.Strings(got)
@@ -180,6 +196,12 @@ func TestVerifC09LMTP(t *testing.T) {
 					key = fmt.Sprintf("%s:%d", key, rapid.SampledFrom(tx.Rcpts).Draw(t, "faultrcpt"))
 				}
 				tx.Faults[key] = rapid.SampledFrom([]string{"T", "P"}).Draw(t, "class")
+			}
+			switch rapid.IntRange(0, 9).Draw(t, "bodyfault") {
+			case 0:
+				tx.Faults["bodyopen"] = "io"
+			case 1:
+				tx.Faults["bodyread"] = fmt.Sprint(rapid.SampledFrom([]int{0, 1, 3, 5}).Draw(t, "bodyread_after"))
 			}
 			if sc.LMTP && rapid.IntRange(0, 4).Draw(t, "dropafter?") == 0 {
 				// the next hop dies after answering for this many recipients
